@@ -671,7 +671,7 @@ impl<T: HCfg> World<T> {
                     }
                 }
             }
-            (Sess::Sync(sess), "tick") => {
+            (Sess::Sync(sess), "tick") | (Sess::Sync(sess), "addonly") => {
                 line.insert("cur0".into(), json!(sess.current_frame()));
                 line.insert("g0".into(), json!([peer.game.st.frame, peer.game.st.hash]));
                 let ins: Vec<(usize, u8)> = s["in"]
@@ -691,6 +691,10 @@ impl<T: HCfg> World<T> {
                     });
                 }
                 line.insert("add".into(), json!(adds));
+                if act == "addonly" {
+                    line.insert("r".into(), json!("ok"));
+                    return;
+                }
                 let r = catch_unwind(AssertUnwindSafe(|| sess.advance_frame()));
                 match r {
                     Ok(Ok(reqs)) => {
